@@ -382,8 +382,8 @@ class AsyncSimStream(_StreamCommon, httpcore.AsyncNetworkStream):
         op.state = "ok"
         net._close_transport(self._tr)
         if net.env.suspending:
-            # anyio's SocketStream.aclose() closes the transport and then does `await sleep(0)`
-            await asyncio.sleep(0)
+            # anyio's SocketStream.aclose() closes the transport and then does `await sleep(0)`; trio's aclose checkpoints too
+            await net.env.yield_once()
 
     async def start_tls(self, ssl_context, server_hostname=None, timeout=None):
         net = self._net
@@ -429,7 +429,7 @@ class AsyncSimBackend(httpcore.AsyncNetworkBackend):
         op.state = "ok"
         net.sleeps.append(seconds)
         if net.env.suspending:
-            await asyncio.sleep(seconds)
+            await net.env.sleep(seconds)
         else:
             net.env.on_sleep(seconds)
 
